@@ -312,7 +312,7 @@ def write_certs(ns, out_path):
     def covered(n):
         return n in pratt.SMALL or (str(n) in db and all(covered(q) for q, _ in db[str(n)]["fs"]))
     missing = [n for n in ns if not covered(n)]
-    if missing:
+    if missing and os.environ.get("VERIF_NO_CERT_SEARCH") != "1":
         # the search needs sympy (tooling venv); bounded time; the cache file is not committed by the check
         try:
             subprocess.run(["python3-vt", os.path.join(TOOLS, "pratt.py")] + ["%x" % n for n in missing], timeout=240,
